@@ -9,7 +9,7 @@ VERIF = Path(__file__).resolve().parents[1]
 CLAIMED = {
     "C01": (
         "Lean 4 simulation proof: Props.C01.sound / sound_exec — every untagged end state of the model of SEVM.run's exploration core (worklist, dispatch, Exec.check, jumpi with visit counters and loop bound, --depth, Path.append/concretization), under every valuation satisfying its path, is reached by the reference EVM (Spec.Evm) with exactly that halt; no bound on program size, steps or inputs, no assumption on the solver; word instructions through C06's op_exact. Tie: exact model-vs-implementation comparison of the exploration on generated core programs with a fixed oracle, plus pointwise differential of the REAL SEVM against the Lean reference EVM on structured programs over the whole supported instruction set (memory, storage, hashing, logs, calls, creations) with solver-found and random inputs",
-        "Proof for the core instruction set (stack/word/control/calldata/environment instructions; everything else ends the model path as stuck, so the theorem is stated for all programs); memory, storage, hashing, calls and creations are covered by the differential run only (C07/C08/C09 prove their components separately). The concrete 1024-item stack limit, which halmos does not model, is an explicit disjunct of the theorem",
+        "Proof for the core instruction set (stack/word/control/calldata/environment instructions, memory MLOAD/MSTORE/MSTORE8/CALLDATACOPY/CODECOPY, RETURN/REVERT with data: the theorem covers halt kind AND returned bytes; everything else ends the model path as stuck, so the theorem is stated for all programs); storage, hashing, logs, calls and creations are covered by the differential run only (C08/C09 prove their components separately); halmos' own memory-limit errors are tagged end states about which nothing is claimed (hypothesis cfg.maxMem + 32 <= memLimit is visible in the statements). The concrete 1024-item stack limit, which halmos does not model, is an explicit disjunct of the theorem",
         "Trusted: Lean kernel, Spec.Evm as the meaning of EVM execution, Model.Sevm (hand model; int_of substitution, calldata size candidates, PUSH32 empty-keccak and the dynamic-array overflow quick check are approximated as stuck), z3 only as a search aid for inputs; known findings recorded for MSIZE, value-bearing CALL in a static frame, JUMPI with symbolic condition and invalid destination",
         "DESIGN.md §4 C01",
     ),
